@@ -25,6 +25,11 @@ impl InputVariant {
         self.data.is_tuple() && self.data.len() != 1
     }
 
+    /// The fields of the variant.
+    pub(crate) fn fields(&self) -> &Fields<InputField> {
+        &self.data
+    }
+
     /// Whether the variant was marked `#[darling(skip)]`.
     pub(crate) fn is_skipped(&self) -> bool {
         self.skip.unwrap_or_default()
